@@ -197,9 +197,11 @@ def replay(path):
 
 MANIFEST = dict(
     category="proof",
-    technique="Lean 4 theorems fromNative_accepts / fromNative_generates / fromNative_refuses + structural correspondence",
+    technique="Lean 4 theorems fromNative_accepts / fromNative_generates / fromNative_refuses + structural correspondence"
+              " + from_native / substitutor translator",
     text="Theorems in Props/C14.lean: for every plain value the model's from_native schema accepts the value and generates it "
          "from any draw list without consuming a draw, and every other kind of value is refused with ValueError; tie: the schema "
          "produced by model and code compared structurally on generated nested values; search: copies and single-step perturbations "
-         "at every depth on the real code.",
+         "at every depth on the real code."
+         " Translator: the isinstance ladder of from_native and the three-statement idiom of every scalar Substitutor.visit_* are extracted (Gen/SubstProg.lean); fromNative_eq_extracted and subst_scalar_eq_extracted prove the hand model equal to them for every input. Source pins: the normalised text of every anchor file is compared with the text the model was last validated against; a changed file is a broken obligation (no-failing-input-found unless the search finds an input).",
     note="Partial under NoNaN (K6). Trusted: Lean kernel + standard axioms, hand model (sampling tie), codec.")
